@@ -105,6 +105,7 @@ def build_traces(path, tier, seed):
                 argi[-1] = argi[0] - 1 if argi[0] > 0 else argi[0] + 1
             x = np.asarray(argi, dtype=float)
             shift = float(np.round(shift)) if abs(shift) < top / 4 else 3.0
+        cleaned_entry = False
         d = pc.determine_peaks_only_delta_series(argi)
         p = pc.determine_pseudo_cyclic_peak_only_series(argi)
         if i % 6 == 4 and not np.any(np.diff(x) == 0):
@@ -121,7 +122,12 @@ def build_traces(path, tier, seed):
                     shift = 3.0
                     p = pc.determine_pseudo_cyclic_peak_only_series(argi)
             d = pc.determine_peak_only_delta_series_4_cleaned_data(argi)
-        dsh = pc.determine_peaks_only_delta_series(x + shift)
+            cleaned_entry = True
+        # "independent of a constant shift": the same entry point on the shifted series (the cleaned-data entry point keeps the
+        # sign of the first movement, determine_peaks_only_delta_series normalises it: the two differ by a global sign on series
+        # that start downwards, so they must not be mixed in this comparison)
+        dsh = (pc.determine_peak_only_delta_series_4_cleaned_data(x + shift) if cleaned_entry
+               else pc.determine_peaks_only_delta_series(x + shift))
         psh = pc.determine_pseudo_cyclic_peak_only_series(x + shift)
         tid += 1
         recs.append({"tid": tid, "kind": "peaks", "x": enc_seq(x), "shift": enc(shift), "d": enc_seq(np.asarray(d, dtype=float)),
